@@ -2,7 +2,11 @@
 
 A job (vocabulary of Isolate.tla) is
   {conn, ledger: [{u, posts: [v..], ty}..], tab: 'e'|'p'|'x', ty, star, targets: [{k, i}..], where: [{k, i}..], lo, hi, lit,
-   wpause, ppause, parse, sub: [c..]}
+   wpause, ppause, parse, sub: [c..], via: 'cursor'|'conn', fetch: [n..]}
+via: the statement is handed to `conn.cursor().execute(..)` (a cursor the thread made) or to the connection's own
+`conn.execute(..)` shortcut; fetch: [] the thread takes description and rows as soon as execute() has returned,
+otherwise the DELIVERY steps -- before each the thread hands the turn over (execute() has returned, nothing of the library
+is running), then reads `description` and fetches n rows (1: fetchone() or fetchmany(1), n: fetchmany(n), 0: fetchall()).
 Target atom {k: 'fn', i: 0, op: 'add'|'first', a, b} is a FUNCTION CALL over columns a and b with a run-time pause point
 between the evaluation of its operands -- realised by the library's own functions date_add(date, int), round(int, int),
 maxwidth(str, int); WHERE atoms 'flo' / 'fhi' are the tests of 'lo' / 'hi' written as date_diff(<value>, <key>) <= 0 / >= 0
@@ -252,6 +256,9 @@ class Case:
         import random
         for j in jobs:
             j.setdefault('sub', [])        # replay files written before FROM-subqueries existed
+            j.setdefault('via', 'cursor')  # ... before the delivery steps existed
+            j.setdefault('fetch', [])
+        self.descs = {}                    # {tid: [description read at each delivery step, as target kinds]}
         self.jobs = jobs
         self.pick = pick
         r = random.Random(pick)
@@ -450,28 +457,53 @@ class Case:
         else:
             stmt = build()
 
+        fetch = list(job['fetch'])
+        one = (self.pick // 5) % 2 == 0       # a step of one row: fetchone() / fetchmany(1)
+
         def run():
             _flags.wpause = bool(job['wpause'])
             pauses = _ptl.state = ParserPauses(places) if nparse else None
+            self.descs.pop(tid, None)
+            descs = []
             try:
-                cur = conn.cursor()
-                cur.execute(stmt, params)
+                if job['via'] == 'conn':
+                    cur = conn.execute(stmt, params)       # the connection's shortcut: it returns the cursor with the results
+                else:
+                    cur = conn.cursor()
+                    cur.execute(stmt, params)
                 if pauses:
                     # an execution that did not go through parse() has its pause points here: the property does not say
                     # that a text is parsed anew every time, and the rows must not depend on where a thread waits
                     _ptl.state = None
                     pauses.flush()
-                raw = cur.fetchall()
+                if not fetch:
+                    descs.append(describe(cur.description, job))
+                    raw = cur.fetchall()
+                else:
+                    raw = []
+                    for n in fetch:
+                        _hand_over()       # execute() has returned / between two fetches: other threads run now
+                        descs.append(describe(cur.description, job))
+                        if n == 0:
+                            raw.extend(cur.fetchall())
+                        elif n == 1 and one:
+                            row = cur.fetchone()
+                            if row is not None:
+                                raw.append(row)
+                        else:
+                            raw.extend(cur.fetchmany(n))
             finally:
                 _ptl.state = None
                 _flags.wpause = False
+                self.descs[tid] = descs
             return project(raw, decs, val, self.idmap)
         return run, text, params
 
     def describe(self):
         return {'kinds': {str(k): v for k, v in self.kinds.items()}, 'params': self.params, 'anon': self.anon,
                 'submit': self.submit, 'pick': self.pick, 'calls': 'operators' if self.opform else 'functions',
-                'as_text': [t for t, j in enumerate(self.jobs, 1) if j.get('parse')]}
+                'as_text': [t for t, j in enumerate(self.jobs, 1) if j.get('parse')],
+                'one_row_step': 'fetchone()' if (self.pick // 5) % 2 == 0 else 'fetchmany(1)'}
 
 
 # ---- pause points inside the parser ------------------------------------------------------------------------------------
@@ -636,6 +668,28 @@ class PauseValue(Exception):
     pass
 
 
+_KINDS = {'c': 'col', 'f': 'fn', 'p': 'rp', 'q': 'cp'}
+_STAR_NAMES = ('k', 'a', 'b', 'n1', 'n2', 'n3')
+
+
+def describe(description, job):
+    """Cursor.description -> the target kinds of Isolate.tla (DescOf): the statements name their targets c<n> (column),
+    f<n> (call), p<n> / q<n> (pause points); the columns of SELECT * are the table's (k, a, b / the subquery's n<c>)"""
+    import re
+    if description is None:
+        return ['none']
+    out = []
+    for c in description:
+        name = getattr(c, 'name', None)
+        if job['star'] and name in _STAR_NAMES:
+            out.append('col')
+        elif isinstance(name, str) and re.fullmatch(r'[cfpq]\d+', name) and not job['star']:
+            out.append(_KINDS[name[0]])
+        else:
+            out.append('other:%s' % (name,))
+    return out
+
+
 class SerialFailure:
     """what a statement run alone gave instead of rows"""
 
@@ -708,7 +762,11 @@ def shape(job):
     def atoms(xs):
         return ','.join(a['k'] + (str(a['i']) if a['k'] == 'col' else ':%s%d%d' % (a['op'], a['a'], a['b']) if a['k'] == 'fn' else '')
                         for a in xs) or '-'
-    return '%s%s:%s:where=%s%s%s' % (job['tab'] + (str(job['ty']) if job['tab'] == 'x' else ''),
-                                     ':sub' + ''.join(map(str, job['sub'])) if job.get('sub') else '',
-                                     '*' if job['star'] else atoms(job['targets']), atoms(job['where']),
-                                     '' if job['lit'] else ':params', ':text' if job.get('parse') else '')
+    how = ''
+    if job.get('via', 'cursor') == 'conn' or job.get('fetch'):
+        how = ':%s.execute' % ('conn' if job.get('via') == 'conn' else 'cursor')
+        how += ':fetch=' + ','.join(map(str, job['fetch'])) if job.get('fetch') else ''
+    return '%s%s:%s:where=%s%s%s%s' % (job['tab'] + (str(job['ty']) if job['tab'] == 'x' else ''),
+                                       ':sub' + ''.join(map(str, job['sub'])) if job.get('sub') else '',
+                                       '*' if job['star'] else atoms(job['targets']), atoms(job['where']),
+                                       '' if job['lit'] else ':params', ':text' if job.get('parse') else '', how)
